@@ -556,6 +556,86 @@ def rule_r5(F, rep):
     rep.floor(R, n, 90, "escape bytes")
 
 
+CODE_UNITS = (0x0000, 0x0041, 0x0FFF, 0xCFFF, 0xD000, 0xD55C, 0xD7FF, 0xD800, 0xDBFF, 0xDC00, 0xDFFF, 0xE000, 0xFFFF)
+
+
+def rule_r9(F, rep):
+    R = rep.rule("C14.R9", "a \\uXXXX escape is combined with a following \\uXXXX escape exactly when its code unit is a surrogate "
+                 "(D800..DFFF); every other code unit is the character itself and leaves the next escape alone")
+    fn = F.fn("<%s>::lex_quoted_string" % LEXER)
+    rep.fn(fn)
+    body = fn.body
+    delim_l = [l for l in range(2, body.argc + 1) if body.local_ty(l)["s"] == "u8"]
+    if not delim_l:
+        raise AnchorMissing("lex_quoted_string: delimiter parameter")
+    unit_calls = [bb for bb, t in body.calls()
+                  if (callee_name(t) or "").startswith(fn.q + "::{closure#") and "t" in t["dst"]
+                  and body.ty(t["dst"]["t"])["s"].endswith("Option<u16>")]
+    if len(unit_calls) < 2:
+        raise AnchorMissing("lex_quoted_string: the two code-unit reads of a \\u escape (found %d)" % len(unit_calls))
+    n = 0
+    for follows in (1, 0):
+        for cu in CODE_UNITS:
+            script = [0x5C, ord("u")]
+
+            def hook(w, bb, t, env, args, cu=cu, follows=follows):
+                nme = callee_name(t) or ""
+                i = env.get("#pos", 0)
+                cur = script[i] if i < len(script) else None
+                if nme == "<%s>::eat_byte" % LEXER:
+                    b = args[1] if len(args) > 1 else None
+                    if isinstance(b, int) and cur is not None and b == cur:
+                        env["#pos"] = i + 1
+                        return 1
+                    return 0 if isinstance(b, int) else None
+                if nme == "<%s>::eat_slice" % LEXER:
+                    return follows
+                if nme.startswith(fn.q + "::{closure#") and bb in unit_calls:
+                    k = env.get("#units", 0)
+                    env["#units"] = k + 1
+                    dst = w.norm(env, t["dst"])
+                    env["%s@Some.0" % dst] = cu if k == 0 else 0xDC00
+                    return ("var", "core::option::Option", "Some")
+                return None
+
+            def on_term(w, bb, t, env):
+                if t["k"] == "call":
+                    nme = callee_name(t) or ""
+                    if nme.startswith(fn.q + "::{closure#") and bb in unit_calls:
+                        return ("unit", env.get("#units", 0))
+                    if nme == "<char>::from_u32":
+                        return ("single",)
+                    if nme == "<char>::decode_utf16":
+                        return ("pair",)
+                    if nme in ("<alloc::string::String>::push", "<%s>::commit_token" % LEXER):
+                        return kwalk.STOP
+                if t["k"] == "return":
+                    return kwalk.STOP
+                return None
+            w = kwalk.Walker(F, body, call_result=hook, on_term=on_term, ordered_marks=True, want_ret=True, arith=True)
+            outs = w.run(0, {str(delim_l[0]): 0x22})
+            rep.states += w.states_explored
+            res = set()
+            for kind, marks, ret in outs:
+                ms = [m[0] for m in marks]
+                if "unit" not in ms:
+                    continue
+                units = sum(1 for m in ms if m == "unit")
+                res.add("pair" if units >= 2 or "pair" in ms else "single" if "single" in ms else "?")
+            surrogate = 0xD800 <= cu <= 0xDFFF
+            exp = {"pair"} if (surrogate and follows) else {"single"}
+            ok = res == exp
+            n += 1
+            rep.ob(R, "unit|%04X|next-escape=%d" % (cu, follows), ok, {"code_unit": "%04X" % cu, "followed_by_escape": follows,
+                                                                      "decoded_as": sorted(res)})
+            if not ok:
+                rep.violation(R, "lex_quoted_string|code-unit|%04X|next-escape=%d" % (cu, follows),
+                              "\\u%04X %s is decoded as %s; the lexical grammar says %s (only D800..DFFF pair up with the "
+                              "following escape — any other unit that does swallows the next character)"
+                              % (cu, "followed by another \\u escape" if follows else "alone", sorted(res), sorted(exp)), fn.loc)
+    rep.floor(R, n, 2 * len(CODE_UNITS), "code-unit classes")
+
+
 NUM_CLASSES = {"digit": ord("7"), "underscore": ord("_"), "dot": ord("."), "e": ord("e"), "E": ord("E"), "plus": ord("+"),
                "minus": ord("-"), "other": ord("x"), "eof": None}
 ANY = None
@@ -799,5 +879,6 @@ def run(F, rep, tier):
     rule_r6(F, rep)
     rule_r7(F, rep)
     rule_r8(F, rep)
+    rule_r9(F, rep)
     rep.assume("text-block indentation stripping, number token values and operator maximal munch are behavioural and not decided")
     return EXPLANATION
